@@ -30,3 +30,36 @@ Example C06_vp8_example :
   option_map (fun pss => (map pseq (concat pss), map pmarker (concat pss))) (enc_many 3 65534 [[1; 2; 3]; [4]; [5; 6]])
   = Some ([65534; 65535; 0; 1], [false; true; true; true]).
 Proof. vm_compute. reflexivity. Qed.
+
+(* ---- the translated kernels (tools/go2coq, spec.d/vp8.txt; regenerated from the Go source on every run) ----
+   rtpvp8/encoder.go hands uint16(e.PayloadMaxSize) to pion's VP8Payloader.Payload, whose translated statements
+   (maxFragmentSize := int(mtu) - usingHeaderSize, the minInt(...) <= 0 early return, currentFragmentSize :=
+   minInt(maxFragmentSize, remaining), make([]byte, usingHeaderSize+cur), remaining -= cur) ARE the formulas of Model.enc:
+   mtu = max mod 2^16, None iff mtu <= hsz or the frame is empty, pieces of chunks (mtu - hsz) (ntake / ndrop),
+   payload = header + piece; Marker: i == plen-1 is "last packet"; e.sequenceNumber++ is seq_next. *)
+From Coq Require Import ZArith.
+From GVG Require Import Kern.
+From GV_vp8 Require Import BridgeLib Bridge.
+Open Scope Z_scope.
+Theorem C06_vp8_kernels_are_the_code : forall (max mtu : N) (frame rest : bytes) (i pc s : N),
+  u16 mtu -> Z.of_N hsz < i64max -> (hsz < mtu)%N -> Z.of_N (nlen rest) < i64max -> (1 <= pc)%N -> Z.of_N pc < i64max ->
+  k_vp8_mtu (Z.of_N max) = Z.of_N (max mod 65536) /\
+  k_vp8_pion_none (k_vp8_pion_min (k_vp8_pion_maxfrag (Z.of_N mtu) (k_vp8_pion_hdr (Z.of_N hsz))) (Z.of_N (nlen frame)))
+    = ((mtu <=? hsz)%N || (nlen frame =? 0)%N) /\
+  (let n := (mtu - hsz)%N in
+   let cur := k_vp8_pion_min (k_vp8_pion_maxfrag (Z.of_N mtu) (k_vp8_pion_hdr (Z.of_N hsz))) (Z.of_N (nlen rest)) in
+   cur = Z.of_N (nlen (ntake n rest)) /\
+   k_vp8_pion_outsize (k_vp8_pion_hdr (Z.of_N hsz)) cur = Z.of_N (hsz + nlen (ntake n rest)) /\
+   k_vp8_pion_rem (Z.of_N (nlen rest)) cur = Z.of_N (nlen (ndrop n rest))) /\
+  k_vp8_marker (Z.of_N i) (Z.of_N pc) = (i + 1 =? pc)%N /\
+  k_vp8_seq (Z.of_N s) = Z.of_N (seq_next s).
+Proof. exact enc_kernels_are_the_code. Qed.
+Print Assumptions C06_vp8_kernels_are_the_code.
+
+Example C06_vp8_example_kernels :
+  k_vp8_mtu 65537 = 1 /\ k_vp8_pion_maxfrag 1450 (k_vp8_pion_hdr (Z.of_N hsz)) = 1449 /\
+  k_vp8_pion_none (k_vp8_pion_min (k_vp8_pion_maxfrag 1 1) 10) = true /\
+  k_vp8_pion_none (k_vp8_pion_min (k_vp8_pion_maxfrag 2 1) 10) = false /\
+  k_vp8_pion_outsize 1 1449 = 1450 /\ k_vp8_pion_rem 1450 1449 = 1 /\
+  k_vp8_marker 1 2 = true /\ k_vp8_marker 0 2 = false /\ k_vp8_seq 65535 = 0.
+Proof. vm_compute. repeat split. Qed.
